@@ -40,6 +40,10 @@ type c13Case struct {
 	// holds ONE report, and a "burst" event delivers one report per session back to back, before anybody has drained
 	// anything: every one of them is a first report (or a full interval after the last one) and must reach the control plane
 	Burst int `json:"burst,omitempty"`
+	// Reassoc: before the history one report is delivered for the notifying session, the association is released, more than
+	// one interval passes, the same peer associates afresh and establishes the same three sessions again: the history then
+	// runs against the sessions of the second association
+	Reassoc bool `json:"reassoc,omitempty"`
 }
 
 var c13Advances = []int64{int64(c13Interval) - 1, 1, int64(c13Interval)}
@@ -106,29 +110,61 @@ func c13Run(res *vResult, cs c13Case, ready *grpc.ClientConn) (viol, desc string
 		c := &vConn{node: "10.0.1.1", seq: 1}
 		peer.Send(c10N4+":8805", (&sReq{Kind: kAssoc, Seq: 1}).build(c).marshal())
 		vsched.Quiesce("assoc")
-		for i := 0; i < 3; i++ {
-			ue := fmt.Sprintf("16.0.0.%d", i+1)
-			p, f, _ := rsBasic(ue, uint32(0x100+i), "11.1.1.129")
-			p[0].QERs, p[1].QERs = nil, nil
-			p[1].ID = uint16(20 + i)
-			switch {
-			case i == 0 || cs.Burst > 0:
-				f[1] = sFAR{ID: 2, Action: ActionBuffer | ActionNotify}
-			case i == 2:
-				if !cs.P4 {
-					p = p[:1] // no downlink PDR (UP4 needs one to learn the UE address)
-				} else {
-					f[1] = sFAR{ID: 2, Action: ActionDrop}
+		establish := func(seq0 uint32) bool {
+			for i := 0; i < 3; i++ {
+				ue := fmt.Sprintf("16.0.0.%d", i+1)
+				p, f, _ := rsBasic(ue, uint32(0x100+i), "11.1.1.129")
+				p[0].QERs, p[1].QERs = nil, nil
+				p[1].ID = uint16(20 + i)
+				switch {
+				case i == 0 || cs.Burst > 0:
+					f[1] = sFAR{ID: 2, Action: ActionBuffer | ActionNotify}
+				case i == 2:
+					if !cs.P4 {
+						p = p[:1] // no downlink PDR (UP4 needs one to learn the UE address)
+					} else {
+						f[1] = sFAR{ID: 2, Action: ActionDrop}
+					}
 				}
+				peer.Send(c10N4+":8805", (&sReq{Kind: kEst, CPSEID: uint64(0xC0 + i), Seq: seq0 + uint32(i), CreatePDR: p, CreateFAR: f}).build(c).marshal())
+				vsched.Quiesce("est")
+				d, err := vDecode(peer.Inbox[len(peer.Inbox)-1])
+				if err != nil || !d.HasFSEID || d.Cause != ie.CauseRequestAccepted {
+					prologueErr = fmt.Sprintf("establishment %d not accepted", i)
+					return false
+				}
+				sess[i] = sessInfo{up: d.UPSEID, cp: uint64(0xC0 + i), ue: vIP4(ue), dlPDR: uint16(20 + i)}
 			}
-			peer.Send(c10N4+":8805", (&sReq{Kind: kEst, CPSEID: uint64(0xC0 + i), Seq: uint32(10 + i), CreatePDR: p, CreateFAR: f}).build(c).marshal())
-			vsched.Quiesce("est")
-			d, err := vDecode(peer.Inbox[len(peer.Inbox)-1])
-			if err != nil || !d.HasFSEID || d.Cause != ie.CauseRequestAccepted {
-				prologueErr = fmt.Sprintf("establishment %d not accepted", i)
+			return true
+		}
+		if !establish(10) {
+			return
+		}
+		if cs.Reassoc {
+			// one report while the first association lives (it is forwarded: nothing is asserted about it here)
+			if cs.P4 {
+				b := make([]byte, 4)
+				binary.BigEndian.PutUint32(b, sess[0].ue)
+				up.p4client.digests <- &p4.DigestList{Data: []*p4.P4Data{{Data: &p4.P4Data_Bitstring{Bitstring: b}}}}
+			} else {
+				b := make([]byte, 8)
+				binary.LittleEndian.PutUint64(b, sess[0].up)
+				notifySock.In = append(notifySock.In, b)
+			}
+			vsched.Quiesce("report-first-association")
+			peer.Send(c10N4+":8805", (&sReq{Kind: kRel, Seq: 40}).build(c).marshal())
+			vsched.Quiesce("release")
+			vtime.Sleep(2 * c13Interval)
+			vsched.Quiesce("quiet")
+			peer.Send(c10N4+":8805", (&sReq{Kind: kAssoc, Seq: 41}).build(c).marshal())
+			vsched.Quiesce("assoc-again")
+			if d, err := vDecode(peer.Inbox[len(peer.Inbox)-1]); err != nil || d.Type != message.MsgTypeAssociationSetupResponse || d.Cause != ie.CauseRequestAccepted {
+				prologueErr = "second association not accepted"
 				return
 			}
-			sess[i] = sessInfo{up: d.UPSEID, cp: uint64(0xC0 + i), ue: vIP4(ue), dlPDR: uint16(20 + i)}
+			if !establish(50) {
+				return
+			}
 		}
 		if cs.CPMoved {
 			for i := 0; i < 2; i++ {
@@ -274,7 +310,7 @@ func TestVerifC13(t *testing.T) {
 		depth = 6
 	}
 	res.Rule = fmt.Sprintf("BFS to depth %d over {report for a session whose downlink FAR buffers+notifies / forwards / has no (UP4: a dropping) downlink rule / an unknown F-SEID, advance the virtual clock by interval-1ns / 1ns / interval}, "+
-		"every sequence is executed from scratch (no state merging: the limiter's memory is not observable) on the real pipeline of both event sources "+
+		"(+ the same to depth 3 after the association was released and set up again with the same sessions), every sequence is executed from scratch (no state merging: the limiter's memory is not observable) on the real pipeline of both event sources "+
 		"under the canonical schedule; every message written to the peer is decoded. distinct_nontrivial = histories executed; states = distinct reference-limiter states", depth)
 	res.Assumptions = []string{"one association (the code documents multi-association routing as not implemented)", "canonical schedule only: the pipeline is sequential per report (schedule exploration of node.Serve is C10's)",
 		"the notification interval is the hard-coded 20 s of notifyListen / listenToDDNs"}
@@ -373,6 +409,40 @@ func TestVerifC13(t *testing.T) {
 					}
 					frontier = next
 				}
+			}
+		}
+	}
+	// after a release and a fresh association of the same peer: every sequence of up to 3 events, sharded by the first
+	for _, p4mode := range []bool{false, true} {
+		for a := range ops {
+			item++
+			if !vMine(item) {
+				continue
+			}
+			frontier := [][]c13Ev{{ops[a]}}
+			for dpt := 1; dpt <= 3 && len(frontier) > 0; dpt++ {
+				var next [][]c13Ev
+				for _, h := range frontier {
+					if res.expired() {
+						return
+					}
+					cs := c13Case{P4: p4mode, History: h, Reassoc: true}
+					res.journal(cs)
+					v, desc, _ := c13Run(res, cs, ready)
+					res.Evaluations++
+					res.Traces++
+					res.Distinct++
+					if v != "" {
+						res.finding(fmt.Sprintf("c13:%s:p4=%v:reassoc", v, p4mode), desc, cs)
+						continue
+					}
+					if dpt < 3 {
+						for _, op := range ops {
+							next = append(next, append(append([]c13Ev{}, h...), op))
+						}
+					}
+				}
+				frontier = next
 			}
 		}
 	}
